@@ -8,11 +8,11 @@ Import ListNotations.
     - [Comm]   only map/set inserts, deletes, commutative accumulation (numeric +=, ++, |=,
                boolean or/and, constant stores), per-element stores through the loop variables,
                early exits that do not carry the element;
-    - [Sorted] additionally appends to slices, each of which is passed to a sort call later in
+    - [SortedAfter] additionally appends to slices, each of which is passed to a sort call later in
                the same function;
     - [Sens]   anything else (calls for effect, element-dependent returns, unsorted appends,
                stores to variables that outlive the iteration). *)
-Inductive range_class := Comm | Sorted | Sens.
+Inductive range_class := Comm | SortedAfter | Sens.
 
 Record map_range := MR {
   mr_file  : string;       (* path relative to the repository root *)
@@ -24,7 +24,7 @@ Record map_range := MR {
 
 Definition class_eqb (a b : range_class) : bool :=
   match a, b with
-  | Comm, Comm | Sorted, Sorted | Sens, Sens => true
+  | Comm, Comm | SortedAfter, SortedAfter | Sens, Sens => true
   | _, _ => false
   end.
 
